@@ -9,17 +9,11 @@ import (
 
 // ---- sanitising: keep a random design inside the hypotheses of the _partial theorems ----
 
-// elemHook, when set, is called on every array element attribute met by walkType.
-var elemHook func(*dg.Attr)
-
 func walkType(t *dg.Type, f func(*dg.Attr)) {
 	if t == nil {
 		return
 	}
 	if t.Elem != nil {
-		if elemHook != nil && t.Kind == "array" {
-			elemHook(t.Elem)
-		}
 		walkAttr(t.Elem, f)
 	}
 	if t.Key != nil {
@@ -131,17 +125,7 @@ func sanitize(d *dg.Design) (*dg.Design, map[string]int) {
 			n["bytes_to_string"]++
 		}
 	}
-	// Enum(1, 2, 3) on the elements of an array of a sized integer type: goa accepts the
-	// design and panics while generating an example (expr.(*Array).MakeSlice appends an
-	// int to a []int32); recorded finding, witness stream
-	elemHook = func(e *dg.Attr) {
-		if e.V != nil && len(e.V.Enum) > 0 && e.T.Kind == "prim" && intPrims[e.T.Prim] && e.T.Prim != "Int" {
-			e.V = nil
-			n["enum_on_sized_int_array_element_dropped"]++
-		}
-	}
 	walkDesign(c, func(a *dg.Attr) { fixV(a.V); fixT(&a.T) }, fixV, fixT)
-	elemHook = nil
 	if len(c.Security) > 0 {
 		for _, s := range c.Services {
 			if len(s.Security) == 0 {
@@ -506,6 +490,9 @@ func coveringDesigns() []*dg.Design {
 			&dg.Method{Name: "user_flagged", Payload: flaggedUser(), HTTP: &dg.HTTPMap{Routes: []dg.Route{rt("PATCH", "/user-flagged")}}},
 			&dg.Method{Name: "params_flagged", Payload: obj(nogen(rstr("p")), nogen(str("q")), nogen(rstr("h")), nogen(str("c")), nogen(rstr("b1")), str("b2")),
 				HTTP: &dg.HTTPMap{Routes: []dg.Route{rt("POST", "/params-flagged/{p}")}, Params: []dg.MapEntry{me("q", "")}, Headers: []dg.MapEntry{me("h", "X-H")}, Cookies: []dg.MapEntry{me("c", "ck")}}})
+		// a body object whose only attribute is flagged (its example is an empty map: the CLI
+		// generator used to panic on it, fix 47de3bf)
+		ms = append(ms, &dg.Method{Name: "only_flagged", Payload: obj(nogen(str("b"))), HTTP: &dg.HTTPMap{Routes: []dg.Route{rt("POST", "/only-flagged")}}})
 		for _, v := range docVerbs {
 			ms = append(ms, &dg.Method{Name: "flagged_body_" + strings.ToLower(v), Payload: obj(rstr("id"), nogen(dg.Req("item", dg.Ref("MItem")))),
 				HTTP: &dg.HTTPMap{Routes: []dg.Route{rt(v, "/flagged-body/"+v+"/{id}")}, Body: &dg.BodySpec{Attr: "item"}}})
@@ -518,6 +505,22 @@ func coveringDesigns() []*dg.Design {
 				{Name: "hiddenA", BasePath: "/ha", Methods: []*dg.Method{{Name: "a", Payload: prim("String"), HTTP: &dg.HTTPMap{Routes: []dg.Route{rt("POST", "/a")}}}}, Files: []dg.FileServer{{Path: "/fa.json", File: "public/fa.json"}}},
 				{Name: "hiddenB", BasePath: "/hb", Methods: []*dg.Method{{Name: "b", HTTP: &dg.HTTPMap{Routes: []dg.Route{rt("GET", "/b")}}}}},
 			}})
+	}
+	// c11: regression cases of the repaired example generation (fix 49bc0fa; was the finding
+	// openapi-generator-error:enum-int-literal-on-sized-int-array-element): Enum with Go int
+	// literals on the elements of arrays and maps of sized integers. In a type no method uses
+	// the panic used to hit the OpenAPI 3 builder; in a payload, the service generator.
+	{
+		enumInts := &dg.Validation{Enum: []any{1, 2, 3}}
+		add(&dg.Design{Name: "cover_enumcoll_unused", Types: []*dg.UserType{
+			{Name: "Unused", Base: dg.Obj(&dg.Field{Name: "xs", A: dg.A(dg.ArrayOf(dg.Attr{T: dg.Prim("Int32"), V: enumInts}))},
+				&dg.Field{Name: "ms", A: dg.A(dg.MapOf(dg.A(dg.Prim("String")), dg.Attr{T: dg.Prim("UInt32"), V: enumInts}))})}},
+			Services: []*dg.Service{{Name: "svc", Methods: []*dg.Method{{Name: "ok", HTTP: &dg.HTTPMap{Routes: []dg.Route{rt("GET", "/ok")}}}}}}})
+		add(&dg.Design{Name: "cover_enumcoll_used", Services: []*dg.Service{{Name: "svc", Methods: []*dg.Method{
+			{Name: "used", Payload: obj(&dg.Field{Name: "a32", A: dg.A(dg.ArrayOf(dg.Attr{T: dg.Prim("Int32"), V: enumInts}))},
+				&dg.Field{Name: "a64", A: dg.A(dg.ArrayOf(dg.Attr{T: dg.Prim("Int64"), V: enumInts}))},
+				&dg.Field{Name: "m64", A: dg.A(dg.MapOf(dg.A(dg.Prim("String")), dg.Attr{T: dg.Prim("Int64"), V: enumInts}))}),
+				HTTP: &dg.HTTPMap{Routes: []dg.Route{rt("POST", "/used")}, Params: []dg.MapEntry{me("a32", "")}}}}}}})
 	}
 	return ds
 }
@@ -598,10 +601,5 @@ func witnessDesigns() []*dg.Design {
 		{Name: "multi", Payload: obj(rstr("title"), str("note")), HTTP: &dg.HTTPMap{Routes: []dg.Route{rt("POST", "/multi")}, Multipart: true}},
 		{Name: "mq", Payload: obj(dg.F("m", dg.MapOf(dg.A(dg.Prim("String")), dg.A(dg.Prim("String"))))), HTTP: &dg.HTTPMap{Routes: []dg.Route{rt("GET", "/mq")}, Params: []dg.MapEntry{me("m", "")}}},
 	}}}})
-	// Enum with int literals on the elements of an array of Int32, in a type no method uses:
-	// the service generators never touch it, the OpenAPI 3 builder panics on its example
-	ds = append(ds, &dg.Design{Name: "w_enumarr", Types: []*dg.UserType{
-		{Name: "Unused", Base: dg.Obj(&dg.Field{Name: "xs", A: dg.A(dg.ArrayOf(dg.Attr{T: dg.Prim("Int32"), V: &dg.Validation{Enum: []any{1, 2, 3}}}))})}},
-		Services: []*dg.Service{{Name: "svc", Methods: []*dg.Method{{Name: "ok", HTTP: &dg.HTTPMap{Routes: []dg.Route{rt("GET", "/ok")}}}}}}})
 	return ds
 }
